@@ -227,7 +227,10 @@ class TargetDatabase:
                     uri += "#" + definition.html5_id
 
                 targets[key] = intersphinx.TargetDefinition(
-                    definition.canonical_name,
+                    # Whitespace-normalized like the keys of this database and like every
+                    # lookup: a line break or a run of blanks in a directive argument would
+                    # break the line format of the inventory, or never be found
+                    normalize_target(definition.canonical_name),
                     (domain, role_name),
                     -1,
                     base_uri,
